@@ -15,6 +15,7 @@ import (
 	"time"
 
 	"github.com/benbjohnson/litestream"
+	"github.com/benbjohnson/litestream/file"
 	"github.com/superfly/ltx"
 )
 
@@ -742,6 +743,40 @@ func (s *Scn) do(op string) Outcome {
 			return Outcome{Err: err}
 		}
 		s.savedDB, s.savedWAL = db, s.ReadWAL()
+		return Outcome{}
+	case "REBUILD":
+		// With litestream stopped, the database is replaced by a brand-new one with ANOTHER page size (arg), the local
+		// LTX state is cleared and the replica location changes (stop; rebuild the database; litestream reset; start).
+		newPS, _ := strconv.Atoi(arg)
+		if s.LSOpen || newPS < 512 {
+			return ill
+		}
+		s.appClose()
+		s.fd.Close()
+		for _, suf := range []string{"", "-wal", "-shm"} {
+			os.Remove(s.DBPath + suf)
+		}
+		os.RemoveAll(s.DB.MetaPath())
+		// the new database replicates to a NEW, empty replica location (the old one holds another database); the
+		// litestream DB object stays the same, its Replica is replaced as a changed configuration would do
+		s.ReplicaDir += "-next"
+		client := file.NewReplicaClient(s.ReplicaDir)
+		rep := litestream.NewReplicaWithClient(s.DB, client)
+		rep.MonitorEnabled = false
+		s.DB.Replica = rep
+		client.Replica = rep
+		s.Client = client
+		s.Cfg.PageSize = newPS
+		if err := s.appOpen(true); err != nil {
+			return Outcome{Err: err}
+		}
+		fd, err := os.Open(s.DBPath)
+		if err != nil {
+			return Outcome{Err: err}
+		}
+		s.fd = fd
+		s.SeqRoot = 0
+		s.recordLedger()
 		return Outcome{}
 	case "SWAPDB":
 		if s.LSOpen || s.savedDB == nil {
